@@ -233,6 +233,11 @@ class NumpyProxy:
             return 0
         return _np.ndim(x)
 
+    def broadcast_arrays(self, *args, **kw):
+        "numpy's broadcast_arrays; an input carrying a modelled dtype keeps it"
+        outs = _np.broadcast_arrays(*[np_view(a) if isinstance(a, SymArray) else a for a in args], **kw)
+        return tuple(SymArray(o, a.sdtype) if isinstance(a, SymArray) else o for a, o in zip(args, outs))
+
     # ---- closeness
     def isclose(self, a, b, rtol=1e-05, atol=1e-08, equal_nan=False):
         if isinstance(a, (list, tuple)) and any(x is _np.ma.masked for x in a):
